@@ -215,6 +215,21 @@ func replaySpec(c *Ctx, raw json.RawMessage, judge func(c *Ctx, e *ProgEval, cou
 	return judge(c, es[0], false)
 }
 
+// runGate handles a program whose generated code could not be observed: a
+// program that kills or hangs the process running it violates the runtime
+// properties (the provider stubs cannot do that); other runner trouble is
+// infrastructure.
+func runGate(c *Ctx, e *ProgEval, prop string) *Fail {
+	if !e.Built || e.Run != nil || e.RunErr == "" {
+		return nil
+	}
+	if e.RunCrash {
+		return Failf(prop+" generated code killed or hung the process calling it", "%s\n--- wire_gen.go\n%s", e.RunErr, e.GenSrc)
+	}
+	c.Inconclusive("runner: " + e.RunErr)
+	return nil
+}
+
 // ---------------------------------------------------------------------------
 // C02
 
@@ -222,10 +237,10 @@ func judgeC02(c *Ctx, e *ProgEval, count bool) *Fail {
 	if !wfGate(c, e) || !e.Accepted() || e.Obs.Status == "panic" {
 		return nil
 	}
+	if f := runGate(c, e, "C02"); f != nil {
+		return f
+	}
 	if !e.Built || e.Run == nil {
-		if e.Built && e.RunErr != "" {
-			c.Inconclusive("runner: " + e.RunErr)
-		}
 		return nil // compile problems are C01's business
 	}
 	if e.Run.Panic != "" {
@@ -279,7 +294,13 @@ func judgeC02(c *Ctx, e *ProgEval, count bool) *Fail {
 // C03
 
 func judgeC03(c *Ctx, e *ProgEval, count bool) *Fail {
-	if !wfGate(c, e) || !e.Accepted() || e.Obs.Status == "panic" || !e.Built || e.Run == nil {
+	if !wfGate(c, e) || !e.Accepted() || e.Obs.Status == "panic" {
+		return nil
+	}
+	if f := runGate(c, e, "C03"); f != nil {
+		return f
+	}
+	if !e.Built || e.Run == nil {
 		return nil
 	}
 	m := NewModel(e.Spec)
@@ -343,7 +364,13 @@ func atoiNote(s string) int {
 // C04
 
 func judgeC04(c *Ctx, e *ProgEval, count bool) *Fail {
-	if !wfGate(c, e) || !e.Accepted() || e.Obs.Status == "panic" || !e.Built || e.Run == nil {
+	if !wfGate(c, e) || !e.Accepted() || e.Obs.Status == "panic" {
+		return nil
+	}
+	if f := runGate(c, e, "C04"); f != nil {
+		return f
+	}
+	if !e.Built || e.Run == nil {
 		return nil
 	}
 	m := NewModel(e.Spec)
